@@ -720,6 +720,8 @@ C15_CounterCellsExclusive == OnUp4 => U4!CountersExclusive(tables.up4)
 C15_MeterCellsExclusive == OnUp4 => U4!AppCellsExclusive(tables.up4) /\ U4!SessCellsExclusive(tables.up4)
 C15_NotFreeWhileInUse == (HasPools /\ last.ev = "req") => U4!NotFreeWhileUsed(tables.up4, PoolsOf(snap))
 C15_NoIdTwiceInPool == HasPools => U4!NoDuplicatesInPools(PoolsOf(snap))
+\* no meter cell has left its pool for the other one (or for good): the plug-in's meter records account for exactly the cells out of each pool
+C15_MeterCellsStayInOwnPool == (HasPools /\ last.ev = "req" /\ NotBurst) => U4!MeterCellsInOwnPool(PoolsOf(snap), AsSet(snap.up4.meters))
 \* a tunnel peer ID that an entry of the switch still refers to is neither freed nor without its tunnel_peers entry
 C15_PeerIdsInUseStayAllocated == (OnUp4 /\ last.ev = "req") => U4!PeerRefsOK(tables.up4, IF HasPools THEN PoolsOf(snap) ELSE U4!NoPools, HasPools)
 LineOfLast == IF l > 1 /\ l - 1 <= Len(Trace) THEN Trace[l - 1] ELSE [ev |-> "none"]
